@@ -81,9 +81,13 @@ def script_a(pos, bids):
 PERMS = [["X", "A", "B", "Y"], ["A", "X", "Y", "B"], ["X", "Y", "A", "B"], ["A", "B", "X", "Y"], ["B", "Y", "A", "X"], ["Y", "B", "X", "A"]]
 
 
-def h_bids(sym, perm, vx, vy, tx, ty):
+def h_bids(sym, perm, vx=None, vy=None, tx=None, ty=None):
     from ioflo.base import skedding
     pos = PERMS[perm]
+    vx = sym.choice("verb_X", 5) if vx is None else vx
+    vy = sym.choice("verb_Y", 5) if vy is None else vy
+    tx = sym.choice("target_X", 3) if tx is None else tx
+    ty = sym.choice("target_Y", 3) if ty is None else ty
     targets = ["A", "B", "me"]
     bids = dict(X=(VERBS[vx], targets[tx]), Y=(VERBS[vy], targets[ty]))
     text = script_a(pos, bids)
@@ -157,8 +161,10 @@ def script_b(fiats):
     return "\n".join(L) + "\n"
 
 
-def h_fiats(sym, f0, f1, f2):
+def h_fiats(sym, f0, f1=None, f2=None):
     from ioflo.base import skedding, fiating
+    f1 = sym.choice("fiat1", 5) if f1 is None else f1
+    f2 = sym.choice("fiat2", 5) if f2 is None else f2
     fiats = [VERBS[f0], VERBS[f1], VERBS[f2]]
     text = script_b(fiats)
     with flogen.notrace(sym):
@@ -245,19 +251,22 @@ def h_fiats(sym, f0, f1, f2):
 
 def obligations(tier):
     out = []
-    perms = [0, 1, 4] if tier == "quick" else range(len(PERMS))
-    pairs = [(0, 2, 1, 1), (2, 0, 0, 0), (3, 1, 0, 0), (1, 3, 1, 0), (4, 0, 1, 1), (2, 2, 2, 0), (0, 3, 1, 2)]
-    if tier != "quick":
-        pairs = [(vx, vy, tx, ty) for vx in range(5) for vy in range(5) for (tx, ty) in ((0, 0), (1, 1), (0, 1), (2, 0), (1, 2))]
-    for perm in perms:
-        for (vx, vy, tx, ty) in pairs:
-            out.append(Ob("bids/perm%d/%s-%s/%s-%s" % (perm, VERBS[vx], "AB."[tx], VERBS[vy], "AB."[ty]), h_bids,
-                          dict(perm=perm, vx=vx, vy=vy, tx=tx, ty=ty), budget=300 if tier == "quick" else 900, covers=["bid-delivered"],
-                          bounds=dict(order=PERMS[perm], bids=[(VERBS[vx], "AB."[tx]), (VERBS[vy], "AB."[ty])], bid_ticks="[1,3]")))
-    trip = [(1, 2, 0), (4, 1, 2), (1, 3, 1), (2, 1, 0), (4, 0, 1)] if tier == "quick" else \
-        [(a, b, c) for a in range(5) for b in range(5) for c in range(5)]
-    for (a, b, c) in trip:
-        out.append(Ob("fiats/%s-%s-%s" % (VERBS[a], VERBS[b], VERBS[c]), h_fiats, dict(f0=a, f1=b, f2=c),
-                      budget=300 if tier == "quick" else 900, covers=[],
-                      bounds=dict(fiats=[VERBS[a], VERBS[b], VERBS[c]], guard_values="[0,1] per tick")))
+    if tier == "quick":
+        pairs = [(0, 2, 1, 1), (2, 0, 0, 0), (3, 1, 0, 0), (1, 3, 1, 0), (4, 0, 1, 1), (2, 2, 2, 0), (0, 3, 1, 2)]
+        for perm in [0, 1, 4]:
+            for (vx, vy, tx, ty) in pairs:
+                out.append(Ob("bids/perm%d/%s-%s/%s-%s" % (perm, VERBS[vx], "AB."[tx], VERBS[vy], "AB."[ty]), h_bids,
+                              dict(perm=perm, vx=vx, vy=vy, tx=tx, ty=ty), budget=300, covers=["bid-delivered"],
+                              bounds=dict(order=PERMS[perm], bids=[(VERBS[vx], "AB."[tx]), (VERBS[vy], "AB."[ty])], bid_ticks="[1,3]")))
+        for (a, b, c) in [(1, 2, 0), (4, 1, 2), (1, 3, 1), (2, 1, 0), (4, 0, 1)]:
+            out.append(Ob("fiats/%s-%s-%s" % (VERBS[a], VERBS[b], VERBS[c]), h_fiats, dict(f0=a, f1=b, f2=c), budget=300, covers=[],
+                          bounds=dict(fiats=[VERBS[a], VERBS[b], VERBS[c]], guard_values="[0,1] per tick")))
+    else:
+        for perm in range(len(PERMS)):
+            for vx in range(5):
+                out.append(Ob("bids/perm%d/%s-any" % (perm, VERBS[vx]), h_bids, dict(perm=perm, vx=vx), budget=2400, covers=["bid-delivered"],
+                              bounds=dict(order=PERMS[perm], bid_X=VERBS[vx], bid_Y="all 5 verbs", targets="all 9 pairs of {A,B,me}", bid_ticks="[1,3]")))
+        for a in range(5):
+            out.append(Ob("fiats/%s-any-any" % VERBS[a], h_fiats, dict(f0=a), budget=2400, covers=[],
+                          bounds=dict(fiats=[VERBS[a], "any", "any"], guard_values="[0,1] per tick")))
     return out
